@@ -85,9 +85,9 @@ def gen_program(rng, prop, tier, run_index):
     for k in range(nops):
         r = rng.random()
         if r < (0.45 if visco else 0.55):
-            kind = str(rng.choice(['prop', 'reverse', 'rotate', 'tiny', 'large', 'at_yield'] if not visco
-                                  else ['prop', 'reverse', 'rotate', 'tiny', 'large'],
-                                  p=[0.3, 0.15, 0.2, 0.1, 0.15, 0.1] if not visco else [0.25, 0.1, 0.4, 0.05, 0.2]))
+            kind = str(rng.choice(['prop', 'reverse', 'rotate', 'tiny', 'large', 'at_yield', 'special'] if not visco
+                                  else ['prop', 'reverse', 'rotate', 'tiny', 'large', 'special'],
+                                  p=[0.27, 0.13, 0.2, 0.1, 0.12, 0.1, 0.08] if not visco else [0.22, 0.1, 0.38, 0.05, 0.17, 0.08]))
             ops.append({'op': 'step', 'kind': kind, 'mag': float(yscale * 10.0 ** rng.uniform(-0.5, 1.2)),
                         'dtf': float(10.0 ** rng.uniform(-1, 1)) if rng.random() < 0.5 else 1.0})
         elif r < 0.72:
@@ -353,6 +353,34 @@ class App:
         return 'C11' if self.visco else 'C09'
 
     # -- ops -----------------------------------------------------------------------------------
+    def special_states(self):
+        """Deformations at which the elastic right Cauchy-Green tensor is (a multiple of) the identity: the
+        undeformed configuration, pure dilatation, rigid rotation, and the elastically unloaded configuration
+        F = R Fp (R Fv) reached after inelastic flow.  Degenerate eigenvalues: separate code paths in the
+        tensor functions and their derivative rules."""
+        Hn = np.zeros_like(self.H)
+        for i in range(self.N):
+            which = int(self.rng.integers(0, 4))
+            th = float(self.rng.uniform(-0.6, 0.6))
+            R = np.array([[np.cos(th), -np.sin(th), 0.0], [np.sin(th), np.cos(th), 0.0], [0.0, 0.0, 1.0]])
+            if which == 0:
+                F = np.eye(3)
+            elif which == 1:
+                a = float(1.0 + self.rng.uniform(-0.05, 0.05))
+                F = a * np.eye(3) if not self.cfg['plane'] else np.diag([a, a, 1.0])
+            elif which == 2:
+                F = R
+            else:
+                if self.visco:
+                    Fi = self.state[i, :9].reshape(3, 3)
+                elif self.ref.kin == 'large deformations':
+                    Fi = self.state[i, 1:10].reshape(3, 3)
+                else:
+                    Fi = np.eye(3) + self.state[i, 1:10].reshape(3, 3)
+                F = R @ Fi
+            Hn[i] = F - np.eye(3)
+        return Hn
+
     def increments(self, op):
         kind, mag = op['kind'], op['mag']
         if kind == 'rotate':
@@ -399,6 +427,9 @@ class App:
         dt = self.dt * op.get('dtf', 1.0)
         if hold:
             Hn = self.H.copy()
+        elif op.get('kind') == 'special':
+            Hn = self.special_states()
+            ctx.probe('step:special_state')
         else:
             Hn = self.H + self.increments(op)
             ok = self.admissible(Hn)
@@ -636,7 +667,12 @@ class App:
         if hold:
             prev = self.holding if self.holding is not None else np.array([ref.stored_neq(Hn[i], old[i]) for i in range(self.N)])
             k = int(np.argmax(stored - prev))
-            ctx.require(np.all(stored <= prev * (1 + 1e-12) + 1e-300), 'C11', 'relaxation_monotone',
+            # absolute floor: a fully relaxed branch has an elastic strain of rounding size (eps), i.e. a stored
+            # energy of order G eps^2, which fluctuates
+            gsum = sum(g_ for g_, _ in ref.branches)
+            floor = 1e4 * core.EPS**2 * gsum * (1.0 + np.sum(Hn.reshape(self.N, -1)**2, axis=1))
+            k = int(np.argmax(stored - prev * (1 + 1e-12) - floor))
+            ctx.require(np.all(stored <= prev * (1 + 1e-12) + floor), 'C11', 'relaxation_monotone',
                         lambda: 'stored non-equilibrium energy rose from %.12g to %.12g during a hold (dt/tau_min = %.3g)'
                         % (prev[k], stored[k], self.sim_dt(dt)))
             # library energy at dt -> 0 from the new state equals W_eq + stored
